@@ -1,6 +1,8 @@
 package main
 
 import (
+	"sort"
+	"go/constant"
 	"encoding/json"
 	"flag"
 	"fmt"
@@ -88,6 +90,15 @@ func buildReplay(p *Program, fr *FuncResult, ob *Obligation, query string, res S
 		} else {
 			rr.Verdict = "not-reproduced"
 			rr.Summary = "real code did not panic on the model inputs " + fmt.Sprint(inputs)
+		}
+		if rr.Verdict == "not-reproduced" {
+			// the model may rest on an abstraction (e.g. an uninterpreted library function):
+			// look for a concrete witness near it, built from the function's own string constants
+			if src2, found, how := searchWitness(p, fn, lits, ob, repo, pkgDir, tag); found {
+				rr.Verdict = "reproduced"
+				rr.Summary = how + " (found by a search around the solver's model, which itself rests on an abstracted library function)"
+				rr.TestSource = src2
+			}
 		}
 		return rr
 	}
@@ -550,4 +561,83 @@ func cmdReplay(args []string) int {
 	}
 	fmt.Println("obligation now: discharged (or no longer generated) on this tree")
 	return rc
+}
+
+
+// searchWitness tries variations of the string arguments (the string constants of the
+// function, with small edits) on the real code and reports the first that panics at the
+// obligation's site.  It only serves to demonstrate a violation the verifier already found.
+func searchWitness(p *Program, fn *ssa.Function, lits []string, ob *Obligation, repo, pkgDir, tag string) (string, bool, string) {
+	if !ob.Pos.IsValid() {
+		return "", false, ""
+	}
+	var strIdx []int
+	for i := 0; i < fn.Signature.Params().Len(); i++ {
+		if b, ok := fn.Signature.Params().At(i).Type().Underlying().(*types.Basic); ok && b.Kind() == types.String {
+			strIdx = append(strIdx, i)
+		}
+	}
+	if len(strIdx) == 0 || len(lits) != fn.Signature.Params().Len() || fn.Signature.Recv() != nil {
+		return "", false, ""
+	}
+	consts := map[string]bool{}
+	var collect func(f *ssa.Function, depth int)
+	collect = func(f *ssa.Function, depth int) {
+		for _, b := range f.Blocks {
+			for _, in := range b.Instrs {
+				for _, op := range in.Operands(nil) {
+					if c, ok := (*op).(*ssa.Const); ok && c.Value != nil && c.Value.Kind() == constant.String {
+						consts[constant.StringVal(c.Value)] = true
+					}
+				}
+				if call, ok := in.(ssa.CallInstruction); ok && depth < 2 {
+					if cf := call.Common().StaticCallee(); cf != nil && p.inRepo(cf) && len(cf.Blocks) > 0 {
+						collect(cf, depth+1)
+					}
+				}
+			}
+		}
+	}
+	collect(fn, 0)
+	var base []string
+	for c := range consts {
+		if len(c) > 0 && len(c) <= 40 {
+			base = append(base, c)
+		}
+	}
+	sort.Strings(base)
+	cands := []string{"", " ", "\x00", "\r", "a"}
+	for _, c := range base {
+		cands = append(cands, c, c+" ", c+"\r", " "+c, c+c, c[:len(c)-1], c+" "+c, c+" 1", c+" x")
+		if len(cands) > 400 {
+			break
+		}
+	}
+	site := fmt.Sprintf("%s:%d", filepath.Base(ob.Pos.Filename), ob.Pos.Line)
+	var sb strings.Builder
+	fmt.Fprintf(&sb, "package %s\n\nimport (\n\t\"fmt\"\n\t\"runtime/debug\"\n\t\"strings\"\n\t\"testing\"\n)\n\n", fn.Pkg.Pkg.Name())
+	fmt.Fprintf(&sb, "// generated by govc for obligation %s: witness search\n", ob.Name)
+	sb.WriteString("func TestGovcReplay(t *testing.T) {\n\tcands := []string{")
+	for _, c := range cands {
+		fmt.Fprintf(&sb, "%s, ", strconv.Quote(c))
+	}
+	sb.WriteString("}\n")
+	fmt.Fprintf(&sb, "\tfor _, c := range cands {\n\t\tfor which := 0; which < %d; which++ {\n\t\t\tif try(c, which) {\n\t\t\t\treturn\n\t\t\t}\n\t\t}\n\t}\n\tfmt.Printf(\"GOVC-REPLAY: NO-WITNESS\\n\")\n}\n\n", len(strIdx))
+	sb.WriteString("func try(c string, which int) (found bool) {\n\tdefer func() {\n\t\tif r := recover(); r != nil {\n\t\t\tst := string(debug.Stack())\n")
+	fmt.Fprintf(&sb, "\t\t\tif strings.Contains(st, %s) {\n\t\t\t\tfmt.Printf(\"GOVC-REPLAY: PANIC %%v with string argument #%%d = %%q\\n%%s\\n\", r, which, c, st)\n\t\t\t\tfound = true\n\t\t\t}\n\t\t}\n\t}()\n", strconv.Quote(site))
+	args := append([]string(nil), lits...)
+	sb.WriteString("\tswitch which {\n")
+	for k, i := range strIdx {
+		a := append([]string(nil), args...)
+		a[i] = "c"
+		fmt.Fprintf(&sb, "\tcase %d:\n\t\t%s(%s)\n", k, fn.Name(), strings.Join(a, ", "))
+	}
+	sb.WriteString("\t}\n\treturn false\n}\n")
+	src := sb.String()
+	out, _ := runReplayTest(repo, pkgDir, fn.Pkg.Pkg.Name(), src, tag+"w")
+	if i := strings.Index(out, "GOVC-REPLAY: PANIC"); i >= 0 {
+		line := strings.SplitN(out[i:], "\n", 2)[0]
+		return src, true, line
+	}
+	return src, false, ""
 }
